@@ -129,6 +129,8 @@ class IndexInterp:
         self.steps = 0
         self.matrices = []
         self.events = []                    # statement-level calls (ast.Expr of a Call) with evaluated arguments
+        self.home = None                    # (repo, module, class name or None): when set, calls of *private* helpers of the package that
+        self.depth = 0                      # on_call does not model are followed into their bodies (bound: 4 levels)
 
     # ------------------------------------------------------------------ expressions
     def ev(self, e):
@@ -435,6 +437,10 @@ class IndexInterp:
             r = self.on_call(e, self)
             if r is not NotImplemented:
                 return r
+        if self.home is not None:
+            r = self._follow(e)
+            if r is not NotImplemented:
+                return r
         args = [self.ev(a) for a in e.args if not isinstance(a, ast.Starred)]
         kw = {k.arg: self.ev(k.value) for k in e.keywords if k.arg}
         plain = isinstance(e.func, ast.Name) or (isinstance(e.func, ast.Attribute) and dotted(e.func.value) in ("itertools", "np", "numpy"))
@@ -608,6 +614,62 @@ class IndexInterp:
             kind = ("type", v.kind) if isinstance(v, SymObj) else ("type", "float" if _is_rat(v) else type(v).__name__)
             return kind in ts
         return ("call", self.callee_text(e.func), tuple(args), tuple(sorted(kw.items())))
+
+    def _follow(self, e):
+        """A call of a private helper of the analysed package (method of the home class through self / cls / the class name, or function of the home
+        module): interpreted in place, with the caller's view of `self.*` and of the class-level state, which it may update."""
+        repo, module, cname = self.home
+        f = e.func
+        target, recv_self = None, None
+        if isinstance(f, ast.Attribute) and cname is not None and dotted(f.value) in ("self", "cls", cname):
+            c = repo.cls(cname)
+            target = c.find_method(f.attr) if c is not None else None
+            if target is not None and not any(isinstance(d0, ast.Name) and d0.id in ("staticmethod",) for d0 in target.decorator_list):
+                recv_self = self.env.get("self", "<dotted self>")
+        elif isinstance(f, ast.Name) and f.id not in self.env:
+            r0 = repo.resolve_name(module, f.id)
+            if isinstance(r0, ast.FunctionDef):
+                target = r0
+        if target is None or not target.name.startswith("_") or target.name.startswith("__") or self.depth >= 4:
+            return NotImplemented
+        a = target.args
+        if a.vararg or a.kwarg or a.kwonlyargs or any(isinstance(x, ast.Starred) for x in e.args) or any(k.arg is None for k in e.keywords):
+            return NotImplemented
+        ps = [x.arg for x in a.posonlyargs + a.args]
+        if recv_self is not None:
+            ps = ps[1:]
+        vals = [self.ev(x) for x in e.args]
+        kws = {k.arg: self.ev(k.value) for k in e.keywords}
+        if len(vals) > len(ps) or any(k0 not in ps for k0 in kws):
+            return NotImplemented
+        env2 = {k0: v0 for k0, v0 in self.env.items() if "." in k0 or is_token(v0) and v0[0] == "type"}
+        if recv_self is not None and recv_self != "<dotted self>":
+            env2[(a.posonlyargs + a.args)[0].arg] = recv_self
+        defaults = dict(zip(ps[len(ps) - len(a.defaults):], a.defaults))
+        for k0, p0 in enumerate(ps):
+            if k0 < len(vals):
+                env2[p0] = vals[k0]
+            elif p0 in kws:
+                env2[p0] = kws[p0]
+            elif p0 in defaults:
+                env2[p0] = self.ev(defaults[p0])
+            else:
+                return NotImplemented
+        sub = type(self).__new__(type(self))
+        sub.__dict__.update(self.__dict__)
+        sub.__dict__.pop("ev", None)
+        sub.env = env2
+        sub.depth = self.depth + 1
+        sub.events = self.events
+        sub.matrices = self.matrices
+        try:
+            ret = sub.run(target.body)
+        finally:
+            self.steps = sub.steps
+        for k0, v0 in sub.env.items():
+            if "." in k0:
+                self.env[k0] = v0          # attribute / class-level stores made by the helper are visible to the caller
+        return ret
 
     # ------------------------------------------------------------------ statements
     def _bind(self, target, value):
